@@ -48,7 +48,7 @@ func genC12(g *gen, seed int64) *Program {
 		r.Call = exact
 		r.Expect = "own"
 		if g.p(0.55) {
-			switch g.pick(16) {
+			switch g.pick(18) {
 			case 0:
 				r.Call, r.Expect = r.Svc+"/"+r.Meth, "own" // missing leading slash is tolerated
 			case 1:
@@ -84,6 +84,13 @@ func genC12(g *gen, seed int64) *Program {
 				r.Call, r.Expect = "/"+r.Svc+"."+r.Meth, "none"
 			case 15:
 				r.KindMismatch, r.Expect = true, "none"
+			case 16, 17:
+				// one character of the name written as a percent escape: a different name
+				pos := 1 + g.pick(len(exact)-1)
+				if exact[pos] == '/' {
+					pos++
+				}
+				r.Call, r.Expect = fmt.Sprintf("%s%%%02X%s", exact[:pos], exact[pos], exact[pos+1:]), "none"
 			}
 			// a mutated name may by accident be another registered name: that is checked at oracle time
 		}
